@@ -10,6 +10,7 @@ import (
 	"github.com/orbs-network/lean-helix-go/spec/types/go/primitives"
 	"github.com/orbs-network/lean-helix-go/spec/types/go/protocol"
 	"github.com/orbs-network/lean-helix-go/state"
+	"github.com/orbs-network/lean-helix-go/verifhook"
 	"github.com/orbs-network/scribe/log"
 	"github.com/pkg/errors"
 	"runtime/debug"
@@ -34,6 +35,7 @@ type govnrErrorer struct {
 }
 
 func (h *govnrErrorer) Error(err error) {
+	verifhook.RecoveredPanic(err) // no-op unless built with tag verif
 	h.logger.Error("recovered panic", log.Error(err), log.String("panic", "true"), log.String("stack-trace", string(debug.Stack())))
 }
 
